@@ -123,6 +123,32 @@ Theorem C18_union : forall (D : Type) (cs cs' : list (contrib D)),
   (forall f, ~ In f (map (@cb_file D) cs) -> o_details D (run_files D cs) f = []).
 Proof. exact union. Qed.
 
+(* The key-level algorithm of ContentComparer.compare — AddRemove over the
+   keys as strings, entries looked up as KeyedTuple does, junk reported by its
+   content, entities by their key ([toy_res], on the C20 models) — satisfies
+   the contract: with it the first premise of C18_independent is discharged,
+   for every text parser. *)
+Theorem C18_compare_contract : res_contract _ toy_res.
+Proof. exact toy_res_contract. Qed.
+
+Theorem C18_independent_compare :
+  forall (FC RX MRX : Type) (walk_fn : fmt -> str -> bool -> list pentry * bool)
+         (dtd_fn : vop -> option str)
+         (fc_compute : nat -> nat -> str -> FC) (fc_query : FC -> str -> option str -> list (Z * str))
+         (rx_compile : str -> RX) (rx_match : RX -> str -> list (Z * str)) (mm_empty : list (Z * str))
+         (m_compile : nat -> MRX) (m_match : MRX -> str -> list (Z * str)) h o,
+  Forall (fun o => is_reconfig o = false) h ->
+  op_ok walk_fn o ->
+  let stp := step _ FC RX MRX walk_fn toy_res dtd_fn fc_compute fc_query rx_compile rx_match
+                  mm_empty m_compile m_match in
+  let r1 := stp (run _ FC RX MRX walk_fn toy_res dtd_fn fc_compute fc_query rx_compile rx_match
+                     mm_empty m_compile m_match h (init FC RX MRX)) o in
+  let r2 := stp (init FC RX MRX) o in
+  out_equiv _ (g_heap (fst r1)) (snd r1) (g_heap (fst r2)) (snd r2).
+Proof.
+  intros. apply independent; auto. exact toy_res_contract.
+Qed.
+
 (* junk keys: "_junk_%d_%d-%d" is injective *)
 Theorem C18_junk_key_injective : forall i a b i' a' b',
   render (KJunk i a b) = render (KJunk i' a' b') -> i = i' /\ a = a' /\ b = b'.
